@@ -49,6 +49,23 @@ pub fn c01(g: &mut G) {
         }
         i += 1;
     }
+    // the same round trip when the bytes travel through a sink that takes them piecewise
+    // (short writes, Interrupted), under every front end
+    for (j, (label, keys)) in sets.iter().enumerate() {
+        if !(j % 9 == 0 || label.starts_with("fan33") || label.starts_with("dense-bin")) {
+            continue;
+        }
+        let kv = values(keys, (j * 5 + 2) % VALUE_PATTERNS, &mut g.rng);
+        let ops = if kv.is_empty() { "-".to_string() } else { crate::run::show_calls(&ins_calls(&kv)) };
+        let fes = ["raw", "map", "set", "map_iter", "set_iter", "map_stream", "set_stream", "raw_iter", "raw_stream"];
+        let caps = [1usize, 2, 3, 5, 7, 64, 4096];
+        let cap = caps[j % caps.len()];
+        let script: Vec<String> = (0..(if keys.len() > 300 { 60000 } else { 6000 })).map(|x| if x % 11 == 10 { "I".to_string() } else { format!("T{}", cap) }).collect();
+        g.emit(format!("# sink-built {}", label));
+        g.emit(format!("sink 0 default {} - _ {} {}", script.join(","), ops, fes[j % fes.len()]));
+        g.emit("stream always - -".into());
+        g.emit("verify".into());
+    }
     // large inputs: shipped corpora and long random sets (digest comparison)
     let n = if g.thorough { 100_000 } else { 10_000 };
     let mut keys: Vec<Vec<u8>> = vec![];
@@ -125,6 +142,17 @@ pub fn c02(g: &mut G) {
         for p in probes(g, keys) {
             g.emit(format!("get {}", hex(&p)));
             g.emit(format!("has {}", hex(&p)));
+        }
+        // the same FST written through a short-writing sink by a wrapper builder
+        if i % (3 * stride) == 0 && keys.len() <= 400 {
+            let ops = if kv.is_empty() { "-".to_string() } else { crate::run::show_calls(&ins_calls(&kv)) };
+            let cap = 1 + i % 7;
+            let script: Vec<String> = (0..8000).map(|x| if x % 13 == 12 { "I".to_string() } else { format!("T{}", cap) }).collect();
+            g.emit(format!("sink 0 default {} - _ {} {}", script.join(","), ops, ["map", "map_iter", "map_stream", "raw"][i % 4]));
+            for p in probes(g, keys).into_iter().take(150) {
+                g.emit(format!("get {}", hex(&p)));
+                g.emit(format!("has {}", hex(&p)));
+            }
         }
     }
 }
